@@ -661,3 +661,7 @@ Proof.
     fold nf. rewrite (mk_name_valid _ Vnf). cbn [bind].
     destruct p; [apply pad_to_max_name_total; exact Vnf|eauto].
 Qed.
+
+Lemma pad_fuel_sufficient (n : name) acc :
+  0 <= wire_length n -> snd (pad_labels 8 (255 - wire_length n) acc) <= 64.
+Proof. intros H. apply pad_labels_enough. cbn. lia. Qed.
